@@ -316,4 +316,47 @@ theorem bytesLe_trans (a b c : Bytes) (h1 : bytesLe a b = true) (h2 : bytesLe b 
               · simp only [hxz, hzx, if_false] at h2 ⊢
                 exact ih ys zs h1 h2
 
+
+/-! ## the rule map -/
+
+theorem get_remove_ne (m : RuleMap) (k k' : CfiReg) (h : k ≠ k') : (m.remove k').get k = m.get k := by
+  unfold RuleMap.remove RuleMap.get
+  induction m with
+  | nil => rfl
+  | cons p m ih =>
+    by_cases hp : p.1 = k'
+    · have hk : ¬ p.1 = k := by rw [hp]; exact fun e => h e.symm
+      rw [List.filter_cons_of_neg (by simp [hp]), List.find?_cons_of_neg (by simp [hk])]
+      exact ih
+    · rw [List.filter_cons_of_pos (by simp [hp])]
+      by_cases hk : p.1 = k
+      · rw [List.find?_cons_of_pos (by simp [hk]), List.find?_cons_of_pos (by simp [hk])]
+      · rw [List.find?_cons_of_neg (by simp [hk]), List.find?_cons_of_neg (by simp [hk])]
+        exact ih
+
+def otherEntry (p : Name × Expr) : CfiReg × Expr := (.other p.1, p.2)
+
+theorem remove_cfa_ra_eq (m : RuleMap) :
+    (m.remove .cfa).remove .ra = (others m).map otherEntry := by
+  unfold RuleMap.remove
+  induction m with
+  | nil => rfl
+  | cons p m ih =>
+    obtain ⟨k, e⟩ := p
+    cases k with
+    | cfa => simpa [others] using ih
+    | ra => simpa [others] using ih
+    | other n => simpa [others, otherEntry] using ih
+
+theorem foldO_applyOtherO (w : Walker) (cfa : UInt64) (evalEq : ∀ e, evalCfiO w.env (some cfa) e = .ok (evalCfi w.env (some cfa) e))
+    (l : List (Name × Expr)) (c : Caller) :
+    foldO (applyOtherO w cfa) (l.map otherEntry) c = .ok (l.foldl (applyOther w cfa) c) := by
+  induction l generalizing c with
+  | nil => rfl
+  | cons p l ih =>
+    simp only [List.map_cons, foldO, List.foldl_cons, applyOtherO, otherEntry, evalEq, applyOther]
+    cases evalCfi w.env (some cfa) p.2 with
+    | none => exact ih _
+    | some v => exact ih _
+
 end MdModel.Cfi
